@@ -1,7 +1,7 @@
 (* C08 — The solving loop visits horizons 0,1,2,... and stops as imin/imax/istop dictate.
    Property theorems only; every proof is `exact <lemma>`.  The loop decisions are the definitions regenerated from
    telingo/__init__.py (Gen/FromSource.v); the model of the loop is Model/Loop.v. *)
-Require Import GenPrelude FromSource Loop Leaf_imain LoopProofs.
+Require Import GenPrelude FromSource FromApp Loop Leaf_imain LoopProofs.
 Section C08.
 Variables (imax : option nat) (imin : nat) (istop : stopc).
 Variable parts : list ppart.
@@ -56,6 +56,18 @@ Proof.
   assert (true = false) as X by (apply Hno; lia). discriminate X.
 Qed.
 
+(* Option values (parsers regenerated from TelApp): --imin accepts exactly the integers >= 0, --imax exactly the integers
+   >= 0 (or no bound), --istop exactly sat/unsat/unknown in any letter case; a value that is not an integer is rejected by
+   the parser itself and never escapes as an exception (iv = what int(value) yields, None = ValueError). *)
+Theorem C08_option_values : forall iv, parse_imin_gen iv = Some (match iv with Some v => (0 <=? v)%Z | None => false end)
+  /\ forall e, parse_imax_gen e iv = Some (e || match iv with Some v => (0 <=? v)%Z | None => false end).
+Proof.
+  intros iv. split; [|intros e; destruct e; [reflexivity|]]; unfold parse_imin_gen, parse_imax_gen; destruct iv as [v|]; try reflexivity;
+    cbn [olift2]; rewrite Z.geb_leb; reflexivity.
+Qed.
+Theorem C08_istop_values : istop_values_gen = ("SAT" :: "UNSAT" :: "UNKNOWN" :: nil)%string.
+Proof. reflexivity. Qed.
+
 (* non-vacuity: a concrete run (imin=2, imax=5, results UNSAT,SAT,...; one always part with look-back 1, a dynamic part) *)
 Example C08_example :
   imain_run (Some 5) 2 StopSAT [(RAlways, "always"%string, [0;1]); (RDynamic, "dynamic"%string, [0])]
@@ -71,3 +83,5 @@ Print Assumptions C08_at_least_imin_unbounded.
 Print Assumptions C08_stop_reason.
 Print Assumptions C08_no_early_stop.
 Print Assumptions C08_default_shortest.
+Print Assumptions C08_option_values.
+Print Assumptions C08_istop_values.
